@@ -54,11 +54,15 @@ def generate(seeds=(1, 2, 3), tier='quick'):
     widths = (1, 3) if tier == 'quick' else (1, 2, 9, 25)
     g = GenFile(PID)
     stats, trees, ctxs, outs_ = {}, {}, {}, {}
+    fnodes, fctxs = {}, {}
     for name, scen in scenarios(widths).items():
         sw, outs, st = tie_check(scen, seeds[:2] if name.startswith('basis') else seeds)
         stats[name] = st
         ctxs[name] = sw.ctx
         trees[name] = [sw.tree(outs[0], j) for j in range(len(outs[0].cols))]
+        for j in range(len(outs[0].cols)):
+            key = f'{name}_c{j}' if len(outs[0].cols) > 1 or name.startswith('basis') else name
+            fnodes[key], fctxs[key] = outs[0].cols[j], sw.ctx
         for j, t in enumerate(trees[name]):
             g.add_def(f'{name}_c{j}' if len(trees[name]) > 1 or name.startswith('basis') else name, t,
                       f'traced from /repo: scenario {name} column {j}; variables {sw.ctx.vars}; symbols {sw.ctx.syms}')
@@ -122,6 +126,19 @@ def generate(seeds=(1, 2, 3), tier='quick'):
             ref = ('add', ('add', ('mul', V(f'A{j}'), ek), ('mul', V(f'B{j}'), th_)), ('mul', ('mul', ek, th_), Nj))
             g.thm_eq(f'{n}_eq_ref_c{j}', ['r'] + pv, ['r'] + pv, f'{n}_c{j}', trees[n][j], ref,
                      what=f'InfDirichletBVPSphericalBasis column {j} equals the reference form (used by the limit theorem)')
+    # operation-order model: the boundary values are reproduced EXACTLY in every arithmetic with the IEEE-754 identities
+    from .. import fex as F
+    specs = [('shell2_inner_exact', 'shell2', [('r', 'r0')], F.app_of('f', 'th', 'ph'), 'DirichletBVPSpherical: u(r0, theta, phi) is exactly f(theta, phi)'),
+             ('shell2_outer_exact', 'shell2', [('r', 'r1')], F.app_of('g', 'th', 'ph'), 'DirichletBVPSpherical: u(r1, theta, phi) is exactly g(theta, phi)'),
+             ('shell1_inner_exact', 'shell1', [('r', 'r0')], F.app_of('f', 'th', 'ph'), 'one-sided DirichletBVPSpherical: u(r0, theta, phi) is exactly f(theta, phi)'),
+             ('inf_inner_exact', 'inf', [('r', 'r0')], F.app_of('f', 'th', 'ph'), 'InfDirichletBVPSpherical: u(r0, theta, phi) is exactly f(theta, phi)')]
+    for K in widths:
+        for j in range(K):
+            specs += [(f'basis2_w{K}_inner_c{j}_exact', f'basis2_w{K}_c{j}', [('r', 'r0')], f'A{j}', f'DirichletBVPSphericalBasis width {K}: R_{j}(r0) is exactly R0_{j}'),
+                      (f'basis2_w{K}_outer_c{j}_exact', f'basis2_w{K}_c{j}', [('r', 'r1')], f'B{j}', f'DirichletBVPSphericalBasis width {K}: R_{j}(r1) is exactly R1_{j}'),
+                      (f'basis1_w{K}_inner_c{j}_exact', f'basis1_w{K}_c{j}', [('r', 'r0')], f'A{j}', f'one-sided DirichletBVPSphericalBasis width {K}: R_{j}(r0) is exactly R0_{j}'),
+                      (f'basisinf_w{K}_inner_c{j}_exact', f'basisinf_w{K}_c{j}', [('r', 'r0')], f'A{j}', f'InfDirichletBVPSphericalBasis width {K}: R_{j}(r0) is exactly R0_{j}')]
+    F.exact_part(g, PID, fnodes, fctxs, specs)
     return g, stats
 
 
